@@ -39,9 +39,11 @@ func Shapes(thorough bool) []DfCase {
 		df(progen.DataflowParams{Extra: "chain"}),                                 // GEN -> ID -> LEN
 		df(progen.DataflowParams{Kind: "int", Cons: "add"}),                       // consumer sorts before producer
 		df(progen.DataflowParams{Cons: "sums"}),                                   // split stage, 2 chunks
+		df(progen.DataflowParams{Cons: "sums", Size: 10}),                         // split stage, 10 chunks (the directory names get a second digit at exactly 10)
 		df(progen.DataflowParams{Map: "top", Extra: "chain"}),                     // run-time forks
 		df(progen.DataflowParams{Dis: "gen-true", DisAt: "cons", Extra: "chain"}), // run-time disabled branch
 		df(progen.DataflowParams{Wrap: 1, Map: "inner"}),                          // mapped call in a sub-pipeline
+		df(progen.DataflowParams{Pre: true, Wrap: 1, Src: "lit"}),                 // two preflight checks; the nested stage has no other prerequisite
 	}
 	if thorough {
 		// a nest: outer call mapped over a run-time array, inner split stage
@@ -100,6 +102,17 @@ type CrashCase struct {
 	Effect   string `json:"effect,omitempty"`
 }
 
+// jobIdent identifies a job by call path, fork, phase and chunk NUMBER: the
+// spelling of a chunk's directory (chnk7 / chnk07) is not part of its identity.
+func jobIdent(j *ObsJob) string {
+	return fmt.Sprintf("%s|%s|%s|%d", j.Path, j.Fork, j.Phase, j.Chunk)
+}
+
+var chunkSpellRe = regexp.MustCompile(`\.chnk0*([0-9])`)
+
+// keyIdent does the same for a job key (ID.ps.CALL.forkN.chnkNN.phase).
+func keyIdent(key string) string { return chunkSpellRe.ReplaceAllString(key, ".chnk$1") }
+
 type crashOutcome struct {
 	viol   []string
 	effect string
@@ -136,7 +149,7 @@ func evalCrash(c CrashCase, ref *progen.RefResult, p *progen.Program) crashOutco
 	recorded := map[string]bool{}
 	for _, j := range inc1.Jobs {
 		if j.Finished && j.How == "complete" && j.Recorded {
-			recorded[j.Key] = true
+			recorded[jobIdent(j)] = true
 		}
 	}
 	if c.Handled {
@@ -158,13 +171,13 @@ func evalCrash(c CrashCase, ref *progen.RefResult, p *progen.Program) crashOutco
 			// jobs the middle incarnation ran although the first one had
 			// recorded their completion count against it
 			for _, j := range mid.Jobs {
-				if recorded[j.Key] {
+				if recorded[jobIdent(j)] {
 					midRerun = append(midRerun, j.Key)
 				}
 			}
 			for _, j := range mid.Jobs {
 				if j.Finished && j.How == "complete" && j.Recorded {
-					recorded[j.Key] = true
+					recorded[jobIdent(j)] = true
 				}
 			}
 			os.Remove(filepath.Join(dir, "ps", "_lock"))
@@ -226,7 +239,7 @@ func evalCrash(c CrashCase, ref *progen.RefResult, p *progen.Program) crashOutco
 	}
 	rerun := append([]string{}, midRerun...)
 	for _, j := range inc2.Jobs {
-		if recorded[j.Key] {
+		if recorded[jobIdent(j)] {
 			rerun = append(rerun, j.Key)
 		}
 	}
